@@ -10,14 +10,11 @@ EPS = Fraction(1, 10 ** 6)
 FUNS = ["avg", "count", "delta", "derive", "last", "max", "min", "stdev", "sum", "percentiles"]
 PCTS = ["p25", "p50", "p75", "p90", "p95", "p99"]
 
-# concretisation of the abstract names/keys of Aggregator.tla (KeyOf): by construction
-NAMES = {"n1": "raw.a.x", "n2": "raw.a.y", "n3": "raw.b.x", "nx": "raw.a.z"}
-FORMATS = {
-    "flat": dict(regex=r"^raw\.[ab]\.[xy]$", outfmt="agg.all", keys={"k1": "agg.all"}),
-    "g1": dict(regex=r"^raw\.(\w+)\.([xy])$", outfmt="agg.${1}.out", keys={"k1": "agg.a.out", "k2": "agg.b.out"}),
-    "g12": dict(regex=r"^raw\.(\w+)\.([xy])$", outfmt="agg.${2}.$1",
-                keys={"k1": "agg.x.a", "k3": "agg.y.a", "k2": "agg.x.b"}),
-}
+# Every concrete string (metric names, regex text, output format, expected output names) comes from TLC
+# evaluating spec/AggregatorNames.tla (NmDriverTable, printed by the generator run as "@@F"): bucket keys
+# of Aggregator.tla ARE the expanded output names (regex match + Go regexp.Expand template semantics).
+ALL_FMTS = ["flat", "g1", "g12", "g0", "w0", "w0t", "dd", "mis"]     # rules of AggregatorNames.tla (NmRules)
+GROUPLESS_EXPANDING = ["w0", "w0t", "dd", "mis"]                      # regex without groups, format needs expansion
 LINE = re.compile(r"^(\S+) (-?\d+\.\d{6}) (\d+)$")
 
 # MaxStep=1: larger clock steps reach no additional state, they only add transitions
@@ -31,26 +28,32 @@ def mc_grid(ctx):
     if ctx.quick():
         # measured: 173 k and 53 k distinct states
         return [dict(Intervals={5}, Waits={0, 1, 5}, MaxT=12, TsSet={0, 4, 5, 10}, MaxLag=12, MaxPoints=3, MaxTicks=2),
-                dict(Intervals={1}, Waits={0, 1}, MaxT=4, TsSet=set(range(5)), MaxLag=4, MaxPoints=3, MaxTicks=2)]
+                dict(Intervals={1}, Waits={0, 1}, MaxT=4, TsSet=set(range(5)), MaxLag=4, MaxPoints=3, MaxTicks=2,
+                     Fmts={"g1", "w0"})]
     # measured: 2.8 M, 3.0 M, 0.7 M, 0.9 M, 1.05 M distinct states
     return [dict(Intervals={5}, Waits={0, 1, 5}, MaxT=12, TsSet=full12, MaxLag=12, MaxPoints=3, MaxTicks=2),
             dict(Intervals={5}, Waits={0, 1, 5}, MaxT=12, TsSet=edge12, MaxLag=12, MaxPoints=4, MaxTicks=3),
             dict(Intervals={5}, Waits={1}, MaxT=12, TsSet={0, 4, 5, 10}, MaxLag=1, MaxPoints=5, MaxTicks=3),
             dict(Intervals={1}, Waits={0, 1, 5}, MaxT=7, TsSet=set(range(8)), MaxLag=7, MaxPoints=3, MaxTicks=3),
-            dict(Intervals={1}, Waits={0, 1}, MaxT=4, TsSet=set(range(5)), MaxLag=4, MaxPoints=5, MaxTicks=3)]
+            dict(Intervals={1}, Waits={0, 1}, MaxT=4, TsSet=set(range(5)), MaxLag=4, MaxPoints=5, MaxTicks=3),
+            dict(Intervals={1}, Waits={0, 1}, MaxT=4, TsSet=set(range(5)), MaxLag=4, MaxPoints=3, MaxTicks=2,
+                 Fmts={"w0", "dd"}, Names={"n1", "n3", "nx"})]
 
 
 def model_check(ctx):
     for g in mc_grid(ctx):
         c = dict(MC_BASE)
         c.update(g)
-        ctx.tlc("Aggregator", "Aggregator_mc.cfg", consts=c, workers=6, timeout=7200, heap="12g")
+        ctx.tlc("Aggregator", "Aggregator_mc.cfg", consts=c, workers=4, timeout=7200, heap="12g")
 
 
 MUTANTS = [  # deviation, the one property it is checked against (invariant or step property)
     ("ge_open", "NoDoubleEmit"), ("no_delete", "ClosedStaysClosed"), ("lt_cutoff", "ClosedStaysClosed"),
     ("no_sort", "AscendingWithinFlush"), ("wrong_quant", "ExactlyOnceContribution"),
-    ("two_buckets", "ExactlyOnceContribution")]
+    ("two_buckets", "ExactlyOnceContribution"),
+    # a regex without capturing groups: the output format is taken as it is instead of being expanded
+    ("no_group_template_verbatim", "ExactlyOnceContribution")]
+MUTANT_CONSTS = {"no_group_template_verbatim": dict(Fmts={"w0", "dd"})}
 
 
 def mc_nonvacuity(ctx):
@@ -62,6 +65,7 @@ def mc_nonvacuity(ctx):
         m, want = mw
         c = dict(MC_BASE, Intervals={5}, Waits={0, 1}, MaxT=12, TsSet={0, 4, 5, 9, 10, 12}, MaxLag=12, MaxPoints=3,
                  MaxTicks=2, MaxStep=12, Mutant=m)
+        c.update(MUTANT_CONSTS.get(m, {}))
         kw = dict(props=[want]) if want == "ExactlyOnceContribution" else dict(invariants=[want])
         r = ctx.tlc("Aggregator", "Aggregator_mc1.cfg", consts=c, workers=2, timeout=1200, expect_ok=False, count=False,
                     args=["-noGenerateSpecTE"], tag="dev_" + m, **kw)
@@ -79,7 +83,7 @@ def mc_nonvacuity(ctx):
 
 # ------------------------------------------------------------------ behaviour generation
 def gen_profiles(ctx):
-    allc = dict(Intervals={1, 5}, Waits={0, 1, 5}, Fmts={"flat", "g1", "g12"}, Names={"n1", "n2", "n3", "nx"},
+    allc = dict(Intervals={1, 5}, Waits={0, 1, 5}, Fmts=set(ALL_FMTS), Names={"n1", "n2", "n3", "nx"},
                 MaxPoints=100000, MaxTicks=100000, MaxContrib=8, Mutant="")
     if ctx.quick():
         return [(dict(allc, MaxT=14, TsSet=set(range(15)), MaxLag=14, MaxStep=3, Window=2, Depth=16), 800),
@@ -92,12 +96,19 @@ def gen_profiles(ctx):
 
 
 def generate(ctx):
-    behs = []
+    """-> (behaviours, rule table): TLC -simulate of AggregatorGen.tla; the rule table (NmDriverTable of
+    AggregatorNames.tla: per rule the regex text, the output format, the concrete metric names and the
+    expanded output name of every name) is printed by the same runs"""
+    behs, fmts = [], None
     for i, (c, n) in enumerate(gen_profiles(ctx)):
         r = ctx.tlc("AggregatorGen", "AggregatorGen.cfg", consts=c, workers=1, timeout=3000, heap="4g",
                     simulate="num=%d" % n, args=["-depth", str(c["Depth"] + 4), "-seed", str(ctx.seed * 1000 + i)],
                     tag="gen%d" % i, count=False)
         got = [json.loads(x) for x in ctx.tlc_printed(r, "@@B")]
+        tab = [json.loads(x) for x in ctx.tlc_printed(r, "@@F")]
+        if len(tab) != 1 or sorted(tab[0]) != sorted(ALL_FMTS) or (fmts is not None and tab[0] != fmts):
+            raise Machinery("rule table not printed (or differs between runs); log %s" % r["log"])
+        fmts = tab[0]
         if len(got) < n * 0.9:
             raise Machinery("behaviour generation produced %d of %d behaviours; log %s" % (len(got), n, r["log"]))
         for b in got:
@@ -108,28 +119,33 @@ def generate(ctx):
     for k, b in enumerate(behs):
         b["b"] = k
     ctx.log("generated %d behaviours (%d steps)" % (len(behs), sum(len(b["steps"]) for b in behs)))
-    return behs
+    per = collections.Counter(b["fmt"] for b in behs)
+    if any(per[f] == 0 for f in ALL_FMTS):
+        raise Machinery("vacuous generation: rules without a behaviour: %s" % [f for f in ALL_FMTS if not per[f]])
+    ctx.cov["behaviours_per_rule"] = dict(per)
+    ctx.cov["rules"] = {f: dict(regex=v["regex"], outfmt=v["outfmt"], groups=v["groups"], out=v["out"]) for f, v in fmts.items()}
+    return behs, fmts
 
 
-def concrete_steps(b):
+def concrete_steps(b, names):
     out = []
     for s in b["steps"]:
         if s["op"] == "adv":
             out.append(dict(op="adv", now=s["now"]))
         elif s["op"] == "proc":
-            out.append(dict(op="proc", name=NAMES[s["name"]], val=s["val"], ts=s["ts"]))
+            out.append(dict(op="proc", name=names[s["name"]], val=s["val"], ts=s["ts"]))
         else:
             out.append(dict(op="tick", t=s["t"]))
     return out
 
 
-def make_runs(ctx, behs):
+def make_runs(ctx, behs, fmts):
     """every behaviour is replayed on ten real aggregators (one per function); cache / dropRaw / the
     cheap matcher conditions vary with the indices.  What is handed to the driver carries no
     expectation.  -> (driver input records, {(b, fun): variant})"""
     recs, plan = [], {}
     for b in behs:
-        f = FORMATS[b["fmt"]]
+        f = fmts[b["fmt"]]
         vs = []
         for fi, fun in enumerate(FUNS):
             v = b["b"] + fi
@@ -138,7 +154,7 @@ def make_runs(ctx, behs):
             vs.append(var)
             plan[(b["b"], fun)] = var
         recs.append(dict(b=b["b"], interval=b["interval"], wait=b["wait"], regex=f["regex"], outfmt=f["outfmt"],
-                         base=BASE, steps=concrete_steps(b), variants=vs))
+                         base=BASE, steps=concrete_steps(b, f["names"]), variants=vs))
     return recs, plan
 
 
@@ -191,11 +207,11 @@ def value_ok(fun, sub, res, printed):
     return abs(p - frac(res[fun])) <= EPS
 
 
-def expected_lines(group, fun, keys, base):
+def expected_lines(group, fun, base):
     """[(name, ts, sub, res)] that one bucket start must produce for function fun"""
     out = []
     for ln in group["lines"]:
-        name = keys[ln["key"]]
+        name = ln["key"]         # bucket keys of the specification are the expanded output names
         if fun == "percentiles":
             for p in PCTS:
                 out.append((name + "." + p, base + group["q"], p, ln["res"]))
@@ -211,7 +227,6 @@ def compare_run(b, r, o):
     """mismatches [(sig, what, detail)] between TLC's expectation for behaviour b and the record o
     of run r; also returns counters"""
     mism, nlines, ntoo = [], 0, 0
-    keys = FORMATS[b["fmt"]]["keys"]
     fun = r["fun"]
     steps = b["steps"]
     if o.get("bad"):
@@ -230,7 +245,7 @@ def compare_run(b, r, o):
             if obs:
                 mism.append(("output-outside-tick", "step %d (%s) produced output %s" % (i, s["op"], obs[:3]), i))
             continue
-        exp = [expected_lines(g, fun, keys, BASE) for g in s["groups"]]
+        exp = [expected_lines(g, fun, BASE) for g in s["groups"]]
         exp = [e for e in exp if e]
         parsed = []
         bad = False
@@ -409,33 +424,31 @@ def selftest_replay(ctx, behs, plan, outs):
 TFUNS = ["sum", "count", "last", "max", "min", "delta", "avg"]     # integer-exact in 32-bit TLC arithmetic
 
 
-def trace_cfgs(ctx, n):
+def trace_cfgs(ctx, n, fmts):
     rng = random.Random(ctx.seed * 31 + 5)
     cfgs = []
     for h in range(n):
-        fm = rng.choice(sorted(FORMATS))
-        f = FORMATS[fm]
+        fm = rng.choice(ALL_FMTS)
+        f = fmts[fm]
         cfgs.append(dict(h=h, fun=TFUNS[h % len(TFUNS)], fmt=fm, interval=rng.choice([1, 5]), wait=rng.choice([0, 1, 5]),
-                         regex=f["regex"], outfmt=f["outfmt"], names={k: v for k, v in NAMES.items() if k != "nx"},
+                         regex=f["regex"], outfmt=f["outfmt"], names={k: v for k, v in f["names"].items() if k != "nx"},
                          base=BASE, steps=rng.choice([16, 24, 36]), maxenq=14))
     return cfgs
 
 
 def project_trace(events, cfgs):
-    """driver events -> alphabet of AggregatorTrace.tla (out lines are parsed; nothing is judged:
-    a line that cannot be parsed or names an unknown series is passed on as key "?" and TLC rejects it)"""
+    """driver events -> alphabet of AggregatorTrace.tla (out lines are parsed; nothing is judged: the
+    series name of the line is passed on as the key and TLC compares it with the expanded output name
+    of the pending bucket; a line that cannot be parsed is passed on as key "?" and TLC rejects it)"""
     out = []
-    rev = None
     for e in events:
         ev = e["ev"]
         if ev == "hist":
-            c = cfgs[e["h"]]
-            rev = {v: k for k, v in FORMATS[c["fmt"]]["keys"].items()}
             out.append(dict(ev="hist", h=e["h"], interval=e["interval"], wait=e["wait"], fmt=e["fmt"], fun=e["fun"]))
         elif ev == "out":
             m = LINE.match(e["line"])
-            if m and m.group(1) in rev and int(m.group(3)) >= BASE and abs(Fraction(m.group(2))) < 2000:
-                out.append(dict(ev="out", key=rev[m.group(1)], q=int(m.group(3)) - BASE,
+            if m and int(m.group(3)) >= BASE and abs(Fraction(m.group(2))) < 2000:
+                out.append(dict(ev="out", key=m.group(1), q=int(m.group(3)) - BASE,
                                 micro=int(Fraction(m.group(2)) * 10 ** 6), line=e["line"]))
             else:
                 out.append(dict(ev="out", key="?", q=-1, micro=0, line=e["line"]))
@@ -474,9 +487,9 @@ def validate_blocks(ctx, blocks, tag, count=True):
     raise Machinery("matched prefix beyond the trace")
 
 
-def trace_variant(ctx):
+def trace_variant(ctx, fmts):
     n = ctx.pick(200, 3000)
-    cfgs = trace_cfgs(ctx, n)
+    cfgs = trace_cfgs(ctx, n, fmts)
     cf = ctx.write_ndjson("aggtrace_cfg.ndjson", cfgs)
     tf = os.path.join(ctx.out, "aggtrace_raw.ndjson")
     res = ctx.go_test("agg", run="^TestTrace$", timeout=3000, expect_ok=False,
